@@ -401,16 +401,13 @@ func (p *processor) isMatchAnd(conds MatchConditions, event *Event, byPrefix boo
 		}
 		value := node.AsString()
 
-		match := false
-		if cond.Regexp != nil {
-			match = cond.Regexp.MatchString(value)
-			if !match {
-				return false
-			}
+		// a condition holds if its regexp matches or one of its values does, as in isMatchOr;
+		// a regexp condition has no values, so the value test must not run after a regexp match
+		if cond.Regexp != nil && cond.Regexp.MatchString(value) {
+			continue
 		}
 
-		match = cond.valueExists(value, byPrefix)
-		if !match {
+		if !cond.valueExists(value, byPrefix) {
 			return false
 		}
 	}
